@@ -14,6 +14,7 @@ mod c12;
 mod c15;
 mod c16;
 mod c18;
+mod cli;
 mod gen;
 mod c13;
 mod c14;
@@ -30,6 +31,23 @@ mod tree;
 mod util;
 
 use report::Report;
+
+/// The command-line sub-sweep of a property (see cli.rs).
+pub fn cli_route(id: &str) -> Vec<(report::Violation, serde_json::Value)> {
+    let scratch = util::Scratch::new("cli");
+    match id {
+        "C01" => cli::c01(&scratch),
+        "C05" => cli::c05(&scratch),
+        "C08" => c08::cli_route(&scratch),
+        "C09" => cli::c09(&scratch),
+        "C12" => cli::c12(&scratch),
+        "C15" => c15::cli_route(&scratch),
+        "C16" => cli::c16(&scratch),
+        "C18" => c18::cli_route(&scratch),
+        _ => Vec::new(),
+    }
+}
+
 use util::Budget;
 
 fn budget_for(tier: &str) -> Budget {
@@ -77,6 +95,7 @@ fn main() {
             "c16" | "c16-stitched" => c16::replay(case),
             "c18" => c18::replay(case),
             "c15" | "c15-route" => c15::replay(case),
+            "cli" => cli_route(case["property"].as_str().unwrap_or("")).into_iter().map(|(v, _)| v).collect(),
             "delete" => c05::replay(case),
             "e3" => match case["check"].as_str().unwrap_or("") {
                 "C06" => c06::replay(case),
@@ -135,6 +154,10 @@ fn main() {
         }));
     }
     let budget = budget_for(tier);
+    if matches!(id, "C01" | "C05" | "C08" | "C09" | "C12" | "C15" | "C16" | "C18") {
+        let _g = util::announce(0, || format!("{id} command-line sub-sweep"));
+        cli::report_all(&report, cli_route(id));
+    }
     match id {
         "C01" => c01::run(&report, &budget),
         "C02" => c02::run(&report, &budget),
